@@ -128,23 +128,58 @@ class World:
 
     # ---------------------------------------------------------------- classes
     def _build_classes(self):
-        cid = 1
+        """Class ids are a DFS pre-order of the primary-base tree, so that `isinstance` becomes a few
+        integer interval tests instead of a disjunction over hundreds of ids."""
+        mros = {}
         for q, ent in self.facts["classes"].items():
-            self.class_ids[q] = cid
-            self.class_mro[q] = ent["mro"]
-            cid += 1
+            mros[q] = ent["mro"]
         # one synthetic fresh direct subclass per exception class: makes "every exception class"
-        # exhaustive for single inheritance (DESIGN §2.5)
+        # exhaustive for single inheritance (DESIGN 2.5)
         for q, ent in list(self.facts["classes"].items()):
             if ent.get("is_exc"):
-                s = "~" + q
-                self.class_ids[s] = cid
-                self.class_mro[s] = [s] + ent["mro"]
-                cid += 1
+                mros["~" + q] = ["~" + q] + ent["mro"]
+        children = {}
+        roots = []
+        for q, mro in mros.items():
+            if len(mro) > 1:
+                children.setdefault(mro[1], []).append(q)
+            else:
+                roots.append(q)
+        order = []
+        def dfs(q):
+            order.append(q)
+            for ch in sorted(children.get(q, [])):
+                dfs(ch)
+        for r in sorted(roots):
+            dfs(r)
+        for q in mros:
+            if q not in order:
+                order.append(q)
+        for i, q in enumerate(order, 1):
+            self.class_ids[q] = i
+            self.class_mro[q] = mros[q]
         self.subclasses = {}
         for q, mro in self.class_mro.items():
             for b in mro:
                 self.subclasses.setdefault(b, []).append(q)
+        self.sub_intervals = {}
+        for b, subs in self.subclasses.items():
+            ids = sorted(self.class_ids[x] for x in subs)
+            iv = []
+            for i in ids:
+                if iv and iv[-1][1] == i - 1:
+                    iv[-1][1] = i
+                else:
+                    iv.append([i, i])
+            self.sub_intervals[b] = iv
+
+    def cls_in(self, c, bases):
+        """z3 Bool: class id term `c` denotes a subclass of one of `bases`."""
+        alts = []
+        for b in bases:
+            for lo, hi in self.sub_intervals.get(b, []):
+                alts.append(c == lo if lo == hi else z3.And(c >= lo, c <= hi))
+        return z3.Or(alts) if alts else z3.BoolVal(False)
 
     def cid(self, q):
         return self.class_ids[q]
@@ -186,9 +221,7 @@ class World:
             elif b == "builtins.NoneType":
                 alts.append(is_none(t))
             else:
-                ids = sorted(self.class_ids[s] for s in self.subclasses.get(b, [b]))
-                c = cls_of(get_loc(t))
-                alts.append(z3.And(is_ref(t), z3.Or([c == i for i in ids])))
+                alts.append(z3.And(is_ref(t), self.cls_in(cls_of(get_loc(t)), [b])))
         return z3.Or(alts) if alts else z3.BoolVal(False)
 
     def find_attr(self, cls_q, name, after=None):
